@@ -58,7 +58,7 @@ def run_harness(harness, greq):
             return
         got = 0
         try:
-            lines = run_proc([harness], reqs, limit=True)
+            lines = run_proc([harness], reqs, timeout=3600, limit=True)
         except subprocess.TimeoutExpired:
             lines = []
         for l in lines:
@@ -131,16 +131,34 @@ def build_cases(prog, tag, rewrites=True, rng=None, only_strict=None):
                     mlines.append((gid, 'run %d %s' % (FUEL, G.to_sexp(vv, strict))))
                     if lean and pl == 'global':
                         mlines.append((gid + '|rw', 'rw %s %d %s' % (lean, FUEL, G.to_sexp(vv, strict))))
+                    if name == 'orig':
+                        # the Lean-defined block_wrap (theorem block_wrap_sound) applied to the program itself
+                        mlines.append((gid + '|bw', 'rw blockwrap %d %s' % (FUEL, G.to_sexp(vv, strict))))
             plan.append(('variant', strict, name))
     return greq, mlines, plan
 
 
 def evaluate(harness, model, greq, mlines):
+    """Run the goja harness and the Lean model driver on the same batch, concurrently."""
+    import threading
+    box = {}
+
+    def run_model():
+        try:
+            box['m'] = run_proc([model], [l for (_, l) in mlines], timeout=3600)
+        except Exception as e:
+            box['merr'] = e
+    th = None
+    if model and mlines:
+        th = threading.Thread(target=run_model)
+        th.start()
     gout = run_harness(harness, greq)
     mout = {}
-    if model and mlines:
-        outs = run_proc([model], [l for (_, l) in mlines])
-        for (gid, _), o in zip(mlines, outs):
+    if th is not None:
+        th.join()
+        if 'merr' in box:
+            raise box['merr']
+        for (gid, _), o in zip(mlines, box.get('m', [])):
             mout[gid] = o
     return gout, mout
 
@@ -180,6 +198,13 @@ def check_program(tag, plan, gout, mout, st, fails, have_model=True):
                     if g['out'] != m:
                         fails.append({'kind': 'model-vs-goja', 'tag': tag, 'id': gid, 'rewrite': name, 'placement': pl,
                                       'strict': strict, 'expected': m, 'observed': g['out']})
+            if have_model and name == 'orig' and pl != 'eval' and m is not None and comparable(m):
+                mb = mout.get(gid + '|bw')
+                if mb is not None:
+                    st['lean_blockwrap'] += 1
+                    if mb.rsplit(' | changed=', 1)[0] != m:
+                        fails.append({'kind': 'lean-rewrite-does-not-undo', 'tag': tag, 'id': gid, 'rewrite': 'block_wrap(lean)',
+                                      'strict': strict, 'expected': m, 'observed': mb})
             # variant vs original on goja (metamorphic)
             if name != 'orig':
                 o = gout.get(oid)
@@ -221,6 +246,7 @@ SIG_PARAMS = 'strict-nonsimple-params-direct-eval'
 SIG_FINALLY = 'exception-in-finally-caught-by-own-catch'
 SIG_EVALFN = 'sloppy-eval-function-declaration-misses-eval-lexical-scope'
 SIG_LEXDEAD = 'lexical-declaration-in-dead-code-rejected'
+SIG_FWDPARAM = 'param-initialiser-after-forward-reference-not-stored'
 LEXDEAD_MSG = 'Compiler bug: Lexical declaration for an unbound name'
 BADKINDS = ('PANIC', 'SYNTAXERROR', 'ERROR', 'CRASH')
 
@@ -263,6 +289,7 @@ def classify_failure(harness, model, seed, i, f):
         if 'T' in sub: x = G.split_try_catch_finally(x)
         if 'J' in sub: x = G.neutralise(x, 'jump')
         if 'R' in sub: x = G.neutralise(x, 'raw')
+        if 'P' in sub: x = G.neutralise_params(x)
         return x
 
     def raw_sig():
@@ -282,20 +309,23 @@ def classify_failure(harness, model, seed, i, f):
         if pl == 'eval' and not strict and (G.toplevel_fdecl_and_lexical(var) or G.toplevel_fdecl_and_lexical(prog)) \
                 and pair_ok(harness, model, prog, var, strict, 'global') and pair_ok(harness, model, prog, var, True, 'eval'):
             return SIG_EVALFN                # only the sloppy direct-eval placement fails, and the pattern is present
-        changed = {k: (apply(prog, k) != prog or apply(var, k) != var) for k in 'TJR'}
-        for sub in ('J', 'R', 'T', 'JR', 'JT', 'RT', 'JRT'):
+        changed = {k: (apply(prog, k) != prog or apply(var, k) != var) for k in 'TJRP'}
+        fwdpat = G.fwd_param_pattern(var) or G.fwd_param_pattern(prog)
+        for sub in ('P', 'J', 'R', 'T', 'PR', 'PJ', 'JR', 'JT', 'RT', 'PT', 'PJR', 'JRT', 'PJRT'):
             if not all(changed[k] for k in sub):
                 continue
             if 'R' in sub and raw_sig() is None:
                 continue
+            if 'P' in sub and not fwdpat:
+                continue
             if pair_ok(harness, model, apply(prog, sub), apply(var, sub), strict, pl):
-                return {'T': SIG_FINALLY, 'J': SIG_JUMP, 'R': raw_sig()}[sub[0]]   # J before R before T
+                return {'P': SIG_FWDPARAM, 'T': SIG_FINALLY, 'J': SIG_JUMP, 'R': raw_sig()}[sub[0]]   # P, J, R before T
                 # (the try/finally defect is repaired in /repo: a failure that needs T alone is reported under its
                 #  old signature, which is no longer `known`, i.e. it alarms)
         # sloppy direct-eval defect combined with others: with every other trigger neutralised the sloppy eval
         # placement still fails, while global placement and strict eval pass
         if pl == 'eval' and not strict and (G.toplevel_fdecl_and_lexical(var) or G.toplevel_fdecl_and_lexical(prog)):
-            np_, nv_ = apply(prog, 'TJR'), apply(var, 'TJR')
+            np_, nv_ = apply(prog, 'TJRP'), apply(var, 'TJRP')
             if pair_ok(harness, model, np_, nv_, False, 'global') and pair_ok(harness, model, np_, nv_, True, 'eval'):
                 return SIG_EVALFN
     except Exception:
@@ -304,9 +334,9 @@ def classify_failure(harness, model, seed, i, f):
 
 
 def new_stats():
-    return {'goja_runs': 0, 'compared': 0, 'metamorphic': 0, 'model_variant': 0, 'lean_rw': 0, 'lean_rw_changed': 0, 'goja_kind': {},
+    return {'goja_runs': 0, 'compared': 0, 'metamorphic': 0, 'model_variant': 0, 'lean_rw': 0, 'lean_rw_changed': 0, 'lean_blockwrap': 0, 'goja_kind': {},
             'model_kind': {}, 'rw_applied': {}, 'dump_changed': {}, 'ins_shift': {}, 'programs': 0, 'nontriv': [],
-            'src_len': 0, 'samples': [], 'cut_short': 0}
+            'src_len': 0, 'samples': [], 'cut_short': 0, 'inconclusive_batches': 0}
 
 
 def merge_stats(a, b):
@@ -344,10 +374,14 @@ def work(args):
             greq += gq; mlines += ml; plans[tag] = plan
             st['programs'] += 1
             st['src_len'] += len(G.to_js(prog))
-        try:
-            gout, mout = evaluate(harness, model, greq, mlines)
-        except subprocess.TimeoutExpired:
-            fails.append({'kind': 'batch-timeout', 'tag': 'p%d' % b0})
+        gout = None
+        for attempt in (1, 2):
+            try:
+                gout, mout = evaluate(harness, model, greq, mlines)
+                break
+            except subprocess.TimeoutExpired:
+                st['inconclusive_batches'] = st.get('inconclusive_batches', 0) + 1     # slow machine: retry, never a verdict
+        if gout is None:
             continue
         for tag, plan in plans.items():
             n0 = len(fails)
@@ -485,7 +519,7 @@ def main(ctx):
             model = None
     if model is None:
         ctx.obligation('model-driver', 'correspondence', False, 'model_c02 unavailable: only the metamorphic (goja vs goja) checks run')
-    ctx.audit('GojaModel.C02.Props', expect_min=11)
+    ctx.audit('GojaModel.C02.Props', expect_min=14)
     if ctx.tier == 'thorough':
         ctx.leanchecker('GojaModel.C02.Props')
     harness = ctx.go_build()
@@ -493,22 +527,27 @@ def main(ctx):
         return ctx.finish(level='proof', rule='harness did not build')
     run_corpus(ctx, harness, model)
 
-    nprog = int(os.environ.get('VERIF_C02_N', '0')) or (3000 if ctx.tier == 'quick' else 150000)
+    # Fixed COUNTS, no time box for the verdict: quick 300 programs (~38 goja runs and ~26 model runs each),
+    # thorough 5000.  The only clock is a coverage cap for thorough (stop handing out new jobs after 40 min).
+    nprog = int(os.environ.get('VERIF_C02_N', '0')) or (300 if ctx.tier == 'quick' else 5000)
     if ctx.broken and ctx.tier == 'quick':
         nprog *= 3          # something no longer checks: raise the search budget
     ncpu = max(1, min(16, (os.cpu_count() or 2)) - 1)
-    per = 10 if ctx.tier == 'quick' else 50
-    deadline = time.time() + (55 if ctx.tier == 'quick' else 720)
-    jobs = [(ctx.seed, s, min(per, nprog - s), harness, model, 1.0, deadline) for s in range(0, nprog, per)]
+    per = 10 if ctx.tier == 'quick' else 25
+    cap = None if ctx.tier == 'quick' else time.time() + 2400
+    jobs = [(ctx.seed, s, min(per, nprog - s), harness, model, 1.0, cap) for s in range(0, nprog, per)]
     st, fails = new_stats(), []
+    t_corr = time.time()
     with Pool(ncpu) as pool:
         for (s1, f1) in pool.imap_unordered(work, jobs):
             merge_stats(st, s1)
             fails += f1
-            if time.time() > deadline:
-                pool.terminate()
-                ctx.stats['stopped_early'] = True
-                break
+    ctx.stats['correspondence_wall_s'] = round(time.time() - t_corr, 1)
+    ctx.stats['programs_planned'] = nprog
+    try:
+        ctx.stats['loadavg'] = os.getloadavg()[0]
+    except OSError:
+        pass
     ctx.count(st['goja_runs'])
     for h in st['nontriv']:
         ctx.nontrivial.add(h)
@@ -516,10 +555,11 @@ def main(ctx):
         ctx.sample(s)
     ctx.stats.update({
         'programs': st['programs'], 'goja_runs': st['goja_runs'], 'model_vs_goja_compared': st['compared'],
-        'metamorphic_pairs': st['metamorphic'], 'model_variant_pairs': st['model_variant'], 'lean_rewrite_undo_checks': st['lean_rw'], 'lean_rewrite_changed_program': st['lean_rw_changed'],
+        'metamorphic_pairs': st['metamorphic'], 'model_variant_pairs': st['model_variant'], 'lean_rewrite_undo_checks': st['lean_rw'], 'lean_rewrite_changed_program': st['lean_rw_changed'], 'lean_blockwrap_checks': st['lean_blockwrap'],
         'goja_outcome_kinds': st['goja_kind'], 'model_outcome_kinds': st['model_kind'], 'rewrite_applications': st['rw_applied'],
         'bytecode_skeleton_changed_by_rewrite': {k: '%d/%d' % (v[0], v[1]) for k, v in st['dump_changed'].items()},
         'instruction_category_shift': st['ins_shift'], 'avg_source_len': st['src_len'] // max(1, st['programs']),
+        'jobs_cut_by_coverage_cap': st.get('cut_short', 0), 'inconclusive_batches_retried': st.get('inconclusive_batches', 0),
     })
     kinds = {}
     for f in fails:
